@@ -51,8 +51,33 @@ def densityOp (args : List String) : Option String :=
     let t ← listOf flt
     pure (fList fF (density kb p t))) args
 
+/-- one dictionary value: tag 0 = None, 1 = 1-D array, 2 = 2-D array -/
+def fProfVal : ProfVal Float → String
+  | .none => "0"
+  | .arr l => "1 " ++ fList fF l
+  | .arr2 rows => "2 " ++ fList (fList fF) rows
+
+/-- `c11.profiledict temp press dens mu H alt g act? inact? cond?` → the entries (key, value) of
+    `generate_profiles()` in insertion order -/
+def profileDictOp (args : List String) : Option String :=
+  run (do
+    let temp ← listOf flt
+    let press ← listOf flt
+    let dens ← listOf flt
+    let mu ← listOf flt
+    let h ← listOf flt
+    let alt ← listOf flt
+    let g ← listOf flt
+    let act ← optOf (listOf (listOf flt))
+    let inact ← optOf (listOf (listOf flt))
+    let cond ← optOf (listOf (listOf flt))
+    let v : Views Float := { altitudeProfile := alt, scaleheightProfile := h, gravityProfile := g,
+                             altitudeBoundaries := [], deltaz := [] }
+    let d := profileDict v temp press dens mu act inact cond
+    pure (fList (fun e => e.1 ++ " " ++ fProfVal e.2) d)) args
+
 def ops : List Op :=
   [("c11.levels", levelsOp), ("c11.arraylevels", arrayLevelsOp), ("c11.scale", scaleOp),
-   ("c11.gravity", gravityOp), ("c11.density", densityOp)]
+   ("c11.gravity", gravityOp), ("c11.density", densityOp), ("c11.profiledict", profileDictOp)]
 
 end Taurex.Ops.C11
